@@ -763,3 +763,24 @@ def install_random_programs(seeds, sizes=(2, 3, 4)):
 PROGRAMS_RANDOM: dict = {}
 
 # }}}
+
+
+def fault_owners(ctxs, size):
+    """Ranks owning an endpoint of a message that does not have exactly one
+    live send and one live receive (after dead-code elimination)."""
+    nsend, nrecv = {}, {}
+    for r, c in ctxs.items():
+        live_s, live_r = live_ops(c.outputs)
+        for dest, tag in live_s:
+            k = (r, dest, repr(tag))
+            nsend[k] = nsend.get(k, 0) + 1
+        for src, tag in live_r:
+            k = (src, r, repr(tag))
+            nrecv[k] = nrecv.get(k, 0) + 1
+    owners = set()
+    for k in set(nsend) | set(nrecv):
+        if nsend.get(k, 0) != 1:
+            owners.add(k[0])
+        if nrecv.get(k, 0) != 1:
+            owners.add(k[1])
+    return owners & set(range(size))
